@@ -5,6 +5,7 @@ package pfcpiface
 import (
 	"errors"
 	"fmt"
+	"io"
 	"net"
 	"net/http"
 	"os"
@@ -208,8 +209,18 @@ func vStartAgent(o vAgentOpts) (*vAgent, error) {
 	}()
 
 	if !o.NoDatapath {
-		if !vWaitUntil(10*time.Second, func() bool { return u.isConnected() }) {
-			return a, errors.New("datapath did not become connected")
+		if !vWaitUntil(1500*time.Millisecond, func() bool { return u.isConnected() }) {
+			// a lazily dialled gRPC channel stays idle until the first RPC: what a Prometheus scrape does in a deployment
+			// (the collector asks the datapath for its port statistics) is done here too before giving up
+			if !vWaitUntil(10*time.Second, func() bool {
+				if resp, err := http.Get("http://" + a.http + "/metrics"); err == nil {
+					io.Copy(io.Discard, resp.Body)
+					resp.Body.Close()
+				}
+				return u.isConnected()
+			}) {
+				return a, errors.New("datapath did not become connected")
+			}
 		}
 	}
 	// the REST endpoint is served from a goroutine: wait until it accepts connections
